@@ -1,4 +1,5 @@
 #!/bin/bash
+export VERIF_EVIDENCE_DIR=/verif/build/evidence_seeded   # evidence of runs on a seeded tree must not replace the evidence of /repo itself
 # usage: tools/run_seed.sh <seed-id> <prop> [more props]   applies seeded/<id>/patch.diff to /repo, runs the checks, reverts
 ID=$1; shift
 git -C /repo apply /verif/seeded/$ID/patch.diff || { echo "patch does not apply"; exit 2; }
